@@ -19,6 +19,12 @@ CLAIMED = {
              "(add with post_phase_shift, phase_shift on subsets, retarget, two channels per basis) against a reference accumulator, as an "
              "inductive per-call step; phases on the grid 2*pi*k/360.", ref="§6 C07",
              note="Trusted base: z3, symx, SPhase grid proxy (x % 2pi = k mod 360), proxies hash to 0; emulator (Ramsey) sentence outside the claim."),
+ "C09": dict(text="Bounded symbolic model checking of call atomicity and read-only purity on real Sequence objects: a concrete prefix "
+             "then 1-2 calls (24 call kinds incl. every documented refusal cause) with symbolic durations/amplitudes/detunings; a full structural "
+             "snapshot (timelines, EOM blocks, phase references, call logs, flags) must be unchanged after every raising call and after every "
+             "read-only call; build()/switch_register copies have the identical timeline; plus raise=>unchanged on the L1 scheduler step.", ref="§6 C09",
+             note="Trusted base: z3, symx, stubs in the evidence file. Findings F9/F9b are reported as KNOWN-FINDING (region = only fall-time/alignment "
+             "delays, or the closing of the EOM block, are left behind); F6 was repaired (fix: commit 2a6983f4)."),
  "C02": dict(text="Bounded symbolic model checking of the real _Schedule operations: one operation from an arbitrary state "
              "satisfying the representation invariant (inductive step), all times/durations/fall times/limits as solver variables; "
              "exhaustive over paths and values inside the stated slot-count/clock bounds.", ref="§6 C02, §5 L1"),
